@@ -278,6 +278,71 @@ fn band_case(ctx: &Ctx, rep: &mut Report, case: u64, g: &mut Sm64) {
     rep.sample(json!({"monitor": mon, "delta": delta, "dim": d, "mean_post_warmup_statistic": mean}));
 }
 
+/// targets with NaN regions: the step size must stay positive and finite however many leapfrog
+/// steps land outside the support during warm-up
+fn nan_region_case<T, B>(ctx: &Ctx, rep: &mut Report, case: u64, g: &mut Sm64, bname: &str)
+where
+    T: Scalar,
+    B: AutodiffBackend,
+    StandardNormal: Distribution<T>,
+    StandardUniform: Distribution<T>,
+    Exp1: Distribution<T>,
+{
+    let mon = "nanregion";
+    let sig = "NUTSChain dual averaging (target with NaN region)";
+    let kind = *g.choose(&[1u8, 3]);
+    let d = g.range(1, 2);
+    let h = Hostile { kind, d, p: g.uniform(1.0, 3.0) };
+    let start = h.start(g);
+    let warm = *g.choose(if ctx.thorough { &[100usize, 600, 1500][..] } else { &[100usize, 600][..] });
+    let seed = g.next_u64();
+    let delta = T::of(g.uniform(0.6, 0.9));
+    let cfg = json!({"target": h.name(), "T": T::NAME, "backend": bname, "dim": d, "start": start, "warmup": warm, "seed": seed, "delta": delta.f()});
+    rep.distinct(("nanregion", kind, T::NAME, bname.to_string(), warm, case));
+    let init: Vec<T> = start.iter().map(|x| T::of(*x)).collect();
+    let mut chain = NUTSChain::<T, B, Hostile>::new(h.clone(), init, delta).set_seed(seed);
+    reset_budget(1 << 17);
+    hook::enable();
+    let r = guard(|| {
+        let _ = chain.run(10, warm);
+    });
+    let events = hook::take();
+    hook::disable();
+    reset_budget(u64::MAX);
+    let traces = parse(&events);
+    rep.evals(traces.len() as u64);
+    if let Err(m) = r {
+        if m.contains(BUDGET_MSG) {
+            rep.inconclusive("target-evaluation budget (2^17 per run) exhausted: trajectories too long to monitor");
+        } else {
+            rep.violation(&format!("{sig} panic"), mon, case, json!({"cfg": cfg, "panic": m}));
+        }
+        return;
+    }
+    let nan_leaves = traces.iter().map(|t| t.leaves.iter().filter(|l| l.0.is_nan()).count()).sum::<usize>();
+    rep.count_n("leapfrog_steps_landing_in_a_NaN_region", nan_leaves as u64);
+    for t in &traces {
+        if !(t.epsilon > 0.0 && t.epsilon.is_finite()) {
+            rep.violation(&format!("{sig} step-size-not-positive-and-finite"), mon, case,
+                json!({"cfg": cfg, "m": t.m, "eps": fj(t.epsilon), "nan_leaves_so_far": nan_leaves}));
+            return;
+        }
+        let stat = stat_of(t);
+        if !(0.0..=1.0 + 1e-6).contains(&stat) {
+            rep.violation(&format!("{sig} acceptance-statistic-outside-[0,1]"), mon, case, json!({"cfg": cfg, "m": t.m, "stat": fj(stat)}));
+            return;
+        }
+    }
+    let st = chain.verif_adapt_state();
+    if !(st.1.f() > 0.0 && st.1.f().is_finite() && st.2.f() > 0.0 && st.2.f().is_finite()) {
+        rep.violation(&format!("{sig} step-size-not-positive-and-finite"), mon, case, json!({"cfg": cfg, "eps": fj(st.1.f()), "eps_bar": fj(st.2.f())}));
+        return;
+    }
+    rep.max("largest_step_size_on_nan_region_targets", traces.iter().map(|t| t.epsilon).fold(0.0, f64::max));
+    rep.held();
+    rep.count("nan_region_chains");
+}
+
 fn families<T, B>(ctx: &Ctx, rep: &mut Report, case: u64, g: &mut Sm64, bname: &str)
 where
     T: Scalar,
@@ -320,6 +385,14 @@ pub fn run(ctx: &Ctx, rep: &mut Report) {
             0 | 2 => families::<f64, B64>(ctx, rep, c, &mut g, "NdArray<f64>"),
             1 => families::<f32, B32>(ctx, rep, c, &mut g, "NdArray<f32>"),
             _ => families::<f32, B64>(ctx, rep, c, &mut g, "NdArray<f64>"),
+        }
+    }
+    for c in ctx.case_ids("nanregion", 48, 2400) {
+        let mut g = ctx.rng("nanregion", c);
+        match c % 4 {
+            0 | 2 => nan_region_case::<f32, B32>(ctx, rep, c, &mut g, "NdArray<f32>"),
+            1 => nan_region_case::<f64, B64>(ctx, rep, c, &mut g, "NdArray<f64>"),
+            _ => nan_region_case::<f32, B64>(ctx, rep, c, &mut g, "NdArray<f64>"),
         }
     }
     for c in ctx.case_ids("band", 8, 256) {
